@@ -54,7 +54,7 @@ PROPERTY = 'C03'
 LEVEL = 'exploration'
 RULE = (
     '(a) texts: generated full control streams ($PRED or $PK/$ERROR with ADVANs, $THETA/$OMEGA/$SIGMA in all documented '
-    'layouts, optional $SIZES/$ABBR/$COV/$TABLE) under <=8 layout-noise or mutation ops (tab, NUL, CR LF, comments, blank '
+    'layouts, optional $SIZES/$ABBR/$COV/$TABLE, BLOCK records with a (v)xn item followed by more values, a second $PROBLEM repeating the code records verbatim) under <=8 layout-noise or mutation ops (tab, NUL, CR LF, comments, blank '
     'lines, `&` continuation, record-name abbreviation/case, verbatim lines, records pharmpy does not model, text before the '
     'first record, delete/duplicate/swap lines and records, stray characters); record bodies drawn from the lark grammars '
     'themselves; mutated checked-in control streams. Only texts the parser accepts are judged. Non-trivial = accepted and >=2 '
@@ -446,7 +446,10 @@ def changed_kinds(before, after, ignore=()):
     (alphabetically) record kind that differs, what in {changed, record-deleted, record-added}; when both texts
     hold the same records in another order it is `records-reordered:<first kind that moved>`.  Kinds in `ignore`
     are left out; '' means no difference."""
-    rb, ra = record_list(before), record_list(after)
+    return _signature(record_list(before), record_list(after), ignore)
+
+
+def _signature(rb, ra, ignore=()):
     common = _lcs(rb, ra)
     cb = list(rb)
     ca = list(ra)
@@ -517,18 +520,13 @@ def frame_condition(before, after, may_change, label):
     b1, b2 = split_problems(record_list(before))
     a1, a2 = split_problems(record_list(after))
     if b2 != a2:
-        for i in range(max(len(b2), len(a2))):
-            x = b2[i] if i < len(b2) else None
-            y = a2[i] if i < len(a2) else None
-            if x != y:
-                what = 'changed' if (x and y and x[0] == y[0]) else ('lost' if x is not None and x not in a2 else 'added-or-moved')
-                kind = y[0] if (what == 'added-or-moved' and y is not None) else (x or y)[0]
-                raise Violation(
-                    f'frame:second-problem:{kind}:record-{what}:{label.split(":", 1)[-1]}',
-                    observed=y[1] if y else None,
-                    expected=x[1] if x else None,
-                    detail=f'records from the second $PROBLEM on must not change\n--- before\n{before}\n--- after\n{after}',
-                )
+        sig, cb, ca = _signature(b2, a2)
+        raise Violation(
+            f'frame:second-problem:{sig}:{label.split(":", 1)[-1]}',
+            observed=''.join(t for _, t in ca),
+            expected=''.join(t for _, t in cb),
+            detail=f'records from the second $PROBLEM on must not change\n--- before\n{before}\n--- after\n{after}',
+        )
     rb = [(k, t) for k, t in b1 if k not in may_change]
     ra = [(k, t) for k, t in a1 if k not in may_change]
     if rb == ra:
@@ -1078,7 +1076,7 @@ def _run_frame(spec):
         raise Reject('code after read differs (reported by noop)')
     changed, classes, after = check_frame(text, model, spec.get('edit') or [0, 0, 0])
     nrec = len(S.split_exact(text))
-    return CaseInfo(nontrivial=changed and nrec >= 6, classes=tuple(classes) + ('kind:' + b.kind,), render=dict(before=text, after=after), evals=1)
+    return CaseInfo(nontrivial=changed and nrec >= 6, classes=tuple(classes) + ('kind:' + b.kind,) + tuple('x:' + u for u in used), render=dict(before=text, after=after), evals=1)
 
 
 def run_frame(spec):
